@@ -5,8 +5,8 @@ HARNESS = "harness/c04_roundtrip.py"
 MODE = "src"
 EXPLANATION = ("Write-op kinds are enumerated (12 kinds), all values are symbolic: integers over their full range, strings over all code points 0..0x10FFFF of the stated length, "
                "raw bytes arbitrary. Every single op, every ordered pair (and triple in the thorough tier) is written with the real EoWriter and read back with the real EoReader.")
-BOUNDS = {"quick": "all single ops and ordered pairs of the 12 kinds (trailing kinds last); strings/bytes of length 0..3; padding room 0..2, plus 255/256/300 for padded strings followed by another field",
-          "thorough": "singles, pairs and triples; strings/bytes of length 0..5 for singles, 0..3 in pairs, 2 in triples; padding room 0..2"}
+BOUNDS = {"quick": "all single ops and ordered pairs of the 12 kinds (trailing kinds last); strings/bytes of length 0..3; padding room 0..2, plus 255/256/300 for padded strings followed by another field; the caller's own bytearray as raw-bytes argument (mutated and re-written after the write); long strings of 66 and 130 symbolic characters for the four non-padded string kinds",
+          "thorough": "singles, pairs and triples; strings/bytes of length 0..5 for singles, 0..3 in pairs, 2 in triples; padding room 0..2; long strings of 33..260 symbolic characters"}
 OUTSIDE = "longer sequences (covered compositionally: C09 shows writes are append-only, C05 shows reads start at the current position); longer strings"
 ASSUMPTIONS = ["excluded as in the property: y-diaeresis (image 0xFF) inside padded strings, '~' inside encoded strings"]
 FIXED = ("byte", "char", "short", "three", "int", "bytes", "fixed_string", "padded_string", "fixed_encoded_string", "padded_encoded_string")
